@@ -60,6 +60,11 @@ CLAIMS = {
   note="safe() is a provenance abstraction (literals of the functions under contract, closure under concatenation/Join/Sprintf with a literal format); the link from the regex literals to the character classes is an axiom tied to the literal by a structural check; ORM.Query takes raw SQL by design; real-engine quoting/unicode behaviour not modelled. One genuine defect found and repaired: a column type could smuggle a second column definition through a top-level comma.",
   technique="contract-based deductive verification: ghost provenance predicate with literal facts, model of fmt.Sprintf/Fprintf formats, call-site preconditions on every statement execution, structural regex/call-site pinning",
   design="§5 C13"),
+ "C10": dict(
+  text="Deductive proof, for bytecode given as an arbitrary byte slice (symbolic length and content), that the loader (Execute, parseBytecode, readConstant), the instruction fetch/dispatch (step, executeInstruction, readOperand), the stack primitives and every operand-carrying instruction handler, and the disassembler (Decompile, readConstant, readInstruction) perform no out-of-bounds index/slice, nil dereference or failed type assertion; offsets only move forward and stay inside the input (decreasing variants: loader and disassembler walks terminate; the run loop terminates under the step limit); every allocation sized by an operand is bounded by the stack depth or the code length; the program counter stays well-formed across all 44 instructions and a successful non-jump instruction advances it by exactly its operand width; the operand tables of VM, compiler and decompiler equal one spec table.",
+  note="Not covered: the lexer/parser half of the property (no claims for source text), constant encode/decode round trip, compiler jump fix-up, reconstructSource; cost of a single instruction is not bounded. Value.Type()/WebSocketHandler declared inert; builtins receive values only. Three genuine defects found and repaired: operand-sized allocation before the stack check (BuildArray/Call), OpAsync missing from the decompiler's operand table, async blocks running without the step limit.",
+  technique="contract-based deductive verification: strict safety obligations + allocation bounds + loop variants over go/ssa WP with symbolic byte slices; spec table shared by three packages",
+  design="§5 C10"),
 }
 
 def main():
